@@ -24,6 +24,8 @@ structure State where
   qAreas : IRaster := default
   qDirs : Dirs := Dirs.all
   q : List Quarantine := []
+  /-- what each run's action REPORTED (observed `distance(step)`, direction code), by (run, step) -/
+  qObs : List ((Nat × Nat) × (String × String)) := []
 deriving Inhabited
 
 /-! ### parsing / printing -/
@@ -260,7 +262,8 @@ def handleQAct (st : State) (inp obs : List String) : State × String :=
         | .error e, [o] => (st, if o = errTok e then "ok" else s!"MISMATCH metric.q.act model={errTok e}")
         | .error e, _ => (st, s!"MISMATCH metric.q.act model={errTok e}")
         | .ok q', ["ok", esc, dist, dname, dcode] =>
-          let st' := { st with q := st.q.set run q' }
+          let st' := { st with q := st.q.set run q',
+                               qObs := ((run, step), (dist, dcode)) :: st.qObs.filter (·.1 != (run, step)) }
           let mi := (q'.infos.getD step default)
           match dist? dist, dirOfName? dname with
           | some od, some odir =>
@@ -309,6 +312,9 @@ def handleQProb (st : State) (inp obs : List String) : State × String :=
     | _, _ => (st, "BADLINE")
   | _ => (st, "BADLINE")
 
+/-- `distance_direction_to_quarantine`: the per-run report of the property's "reported distance and
+    direction". Predicate on observed values: entry `i` is the (distance, direction) that run `i`'s
+    own action reported for that step (judged there by `nearest` / `escape-iff`); then the model. -/
 def handleQDd (st : State) (inp obs : List String) : State × String :=
   match inp with
   | [step, n] =>
@@ -317,7 +323,14 @@ def handleQDd (st : State) (inp obs : List String) : State × String :=
       let m := match distanceDirection (st.q.take n) step with
         | .error e => errTok e
         | .ok l => " ".intercalate (l.map fun x => s!"{showDist x.1} {x.2.code}")
-      (st, errOr m obs "metric.q.dd")
+      let reported : Option (List String) :=
+        ((List.range n).mapM fun i => (st.qObs.find? (·.1 == (i, step))).map fun e => [e.2.1, e.2.2]).map List.flatten
+      match reported with
+      | some want =>
+        if !(obs.any (·.startsWith "err:")) && obs != want then
+          (st, s!"PROPFAIL C18 nearest distance_direction_to_quarantine differs from what the runs' actions reported: expected={" ".intercalate want}")
+        else (st, errOr m obs "metric.q.dd")
+      | none => (st, errOr m obs "metric.q.dd")
     | _, _ => (st, "BADLINE")
   | _ => (st, "BADLINE")
 
@@ -360,7 +373,7 @@ def handle (st : State) (cmd : String) (inp obs : List String) : State × String
   | "metric.sr.new" => handleSrNew st inp obs
   | "metric.sr.act" => handleSrAct st inp obs
   | "metric.sr.avg" => handleSrAvg st inp obs
-  | "metric.q.new" => handleQNew st inp obs
+  | "metric.q.new" => let (s, r) := handleQNew st inp obs; ({ s with qObs := [] }, r)
   | "metric.q.act" => handleQAct st inp obs
   | "metric.q.prob" => handleQProb st inp obs
   | "metric.q.dd" => handleQDd st inp obs
